@@ -66,7 +66,14 @@ typedef struct { const uint8_t* buffer_; size_t size_; } IMS;
   __CPROVER_assigns(*this) \
   __CPROVER_ensures(this->size_ == new_size && this->buffer_ == __CPROVER_old(this->buffer_))
 
+/* read(std::vector<uint8_t>&, count): value.assign(pointer(), pointer()+count); skip(count)  (src/memory_helpers.cpp) */
+#define IMS_READ_VEC_CONTRACT \
+  __CPROVER_requires(IMS_PRE(this)) \
+  __CPROVER_assigns(*this) \
+  __CPROVER_ensures(IMS_ADVANCED(this, count)) \
+  __CPROVER_ensures(IMS_VALID(this))
 #ifndef IMS_BODIES
+void IMS_read_vec(IMS* this, size_t count) IMS_READ_VEC_CONTRACT;
 void IMS_ctor(IMS* this, const uint8_t* buffer, size_t total_sz) IMS_CTOR_CONTRACT;
 void IMS_skip(IMS* this, size_t size) IMS_SKIP_CONTRACT;
 _Bool IMS_can_read(const IMS* this, size_t byte_count) IMS_CAN_READ_CONTRACT;
